@@ -16,9 +16,14 @@ fn main() -> miette::Result<ExitCode> {
 		.launch()
 		.into_diagnostic()?;
 
-	tokio::runtime::Builder::new_multi_thread()
+	let runtime = tokio::runtime::Builder::new_multi_thread()
 		.enable_all()
 		.build()
-		.unwrap()
-		.block_on(async { watchexec_cli::run().await })
+		.unwrap();
+	let result = runtime.block_on(async { watchexec_cli::run().await });
+
+	// a read on stdin (--stdin-quit) that is still blocked must not keep the process alive once
+	// the shutdown is done: tokio cannot cancel it and would wait for it when the runtime is dropped
+	runtime.shutdown_background();
+	result
 }
